@@ -882,3 +882,64 @@ def align_reject(rep, prog, rule):
         else:
             rep.ok(rule, key, f.loc, "refuses only a non-empty head")
     rep.floor(rule, "byte-buffer reinterpretation helpers", n, 2)
+
+
+def crop_validated_first(rep, prog, rule):
+    """success is not decided on an unvalidated crop box"""
+    from . import flow
+    from ..cfg import Dom
+    rep.rule(rule, "in the function that holds the resize pipeline no `Ok(())` is returned on a "
+             "condition over the fields of the crop box before CroppedSrcImageView::crop has "
+             "accepted that box: a 'nothing to do' exit on `crop_box.width == 0.` placed before the "
+             "validation accepts boxes with a NaN, negative, infinite or far-away origin or extent "
+             "as long as one extent is zero (`crop(-5, 0, 0, 3)` returns Ok)")
+    f = flow.pipeline_body(prog)
+    rep.touch(f)
+    sym = Sym(f)
+    dom = Dom(f)
+    crops = [c for c in f.calls() if re.search(r"CroppedSrcImageView::<'a, T>::crop$", c.name)]
+    if not crops:
+        rep.unk(rule, "anchor", f.loc, "no call of CroppedSrcImageView::crop in %s" % f.name)
+        return
+    # blocks on the Ok side of the validation
+    ok_side = set()
+    for (p_, s_, cond, val) in sym.edge_facts():
+        if cond[0] == "discr" and val == 0 and re.search(r"\bcrop@bb\d+\(", fmt(cond)) and "branch" in fmt(cond):
+            ok_side.add(s_)
+    n = 0
+    for b, blk in enumerate(f.blocks):
+        if blk["c"]:
+            continue
+        for j, st in enumerate(blk["s"]):
+            if not (st[0] == "a" and st[1] == [0] and st[2][0] == "agg" and st[2][1] == "adt"
+                    and str(st[2][2]).endswith("result::Result") and st[2][3][1] == "Ok"):
+                continue
+            n += 1
+            if any(dom.dominates(o, b) for o in ok_side):
+                rep.ok(rule, "ok-return#%d" % n, st[3], "after the crop box was accepted")
+                continue
+            # conditions decided on the edges that lead straight to this return (a `||` chain has
+            # one edge per operand; the join itself carries no common fact)
+            def leads_here(x, seen=None):
+                seen = seen or set()
+                while x not in seen:
+                    seen.add(x)
+                    if x == b:
+                        return True
+                    if len(f.succ[x]) != 1 or f.blocks[x]["t"][0] == "call":
+                        return False
+                    x = f.succ[x][0]
+                return False
+            cands = [(c, v) for c, v in sym.facts_at(b)]
+            cands += [(c, v) for (p_, s_, c, v) in sym.edge_facts() if leads_here(s_)]
+            on_box = [fmt(c)[:70] for c, v in cands
+                      if re.search(r"get_crop_box@bb\d+\(.*\)\.(left|top|width|height)\b", fmt(c))
+                      or re.search(r"\bcrop_box\.(left|top|width|height)\b", fmt(c))]
+            if on_box:
+                rep.bad(rule, "ok-before-validation", st[3],
+                        "%s returns Ok(()) when %s, before the crop box is validated: a box with an "
+                        "invalid origin or extent is accepted whenever its width or height is zero"
+                        % (f.name, "; ".join(on_box[:2])))
+            else:
+                rep.ok(rule, "ok-return#%d" % n, st[3], "does not depend on the crop box")
+    rep.floor(rule, "Ok returns of the pipeline function", n, 2)
